@@ -5,9 +5,9 @@
 //! yield or spin) and to record interleaving fingerprints. With no callback
 //! installed a probe costs one relaxed load.
 
-use std::sync::atomic::{AtomicUsize, Ordering};
+use std::sync::atomic::{AtomicPtr, Ordering};
 
-static CALLBACK: AtomicUsize = AtomicUsize::new(0);
+static CALLBACK: AtomicPtr<()> = AtomicPtr::new(::std::ptr::null_mut());
 
 pub const ADD_ASSIGN: u32 = 1;
 pub const DOUBLE: u32 = 2;
@@ -26,19 +26,20 @@ pub const ADD_ASSIGN_MIXED: u32 = 14;
 
 /// Install a probe callback.
 pub fn install(f: fn(u32)) {
-    CALLBACK.store(f as usize, Ordering::SeqCst);
+    CALLBACK.store(f as *mut (), Ordering::SeqCst);
 }
 
 /// Remove the probe callback.
 pub fn uninstall() {
-    CALLBACK.store(0, Ordering::SeqCst);
+    CALLBACK.store(::std::ptr::null_mut(), Ordering::SeqCst);
 }
 
 #[inline]
 pub fn probe(id: u32) {
     let cb = CALLBACK.load(Ordering::Relaxed);
-    if cb != 0 {
-        let f: fn(u32) = unsafe { ::std::mem::transmute::<usize, fn(u32)>(cb) };
+    if !cb.is_null() {
+        // a pointer obtained from a `fn(u32)` in `install` (keeps its provenance, unlike an integer)
+        let f: fn(u32) = unsafe { ::std::mem::transmute::<*mut (), fn(u32)>(cb) };
         f(id);
     }
 }
